@@ -25,6 +25,18 @@ PROPS = {
                       '(text -> production) is validated natively, not by the solver; INC/DEC CF and NEG(0) SF are known findings',
     },
 }
+PROPS['C02'] = {
+    'explanation': 'AND/OR/XOR/TEST and SHL/SAL/SHR/SAR/ROL/ROR/RCL/RCR kernels (and the interpreter productions that '
+                   'apply them) against a reference that performs count single-bit 8086 steps',
+    'bounds': 'count 0..255 is the whole operand domain; reference loop unwound 257 times with unwinding assertions; '
+              'values, flag word, registers, memory unconstrained',
+    'outside': 'parser driver / lexer (validated natively)',
+    'backends': [(r'^c02_(byte|word)_(sal|shr|sar|rol|ror|rcl|rcr)$', ['sat', 'z3'])],
+    'assumptions': ['OF is compared only for count = 1 and AF never (architecturally undefined)'],
+    'level_text': 'bounded model checking; the bound (256 loop iterations of the reference) covers the complete count '
+                  'domain, so within the stated trusted base every (value, count, carry-in) is decided',
+    'level_note': 'trusted: Kani/CBMC/solver soundness, oracle = repeated single-bit steps written from the Intel manual',
+}
 
 NOT_APPLICABLE = {
     'C13': 'macro definition/use is regex::Regex + a recursive call of the generated parser on heap strings; Kani cannot compile the regex engine or the LALRPOP driver (compiler ICE), and a hand model of the substitution would not be the real code',
